@@ -284,13 +284,13 @@ def c11(tier):
     return v.finish()
 
 
-SYM = {"sp": " ", "d": "\u0663", "R": "R", "x": "x", "tab": "\t", "nl": "\n", "bc": "/* c */", "lc": "// c\n", "dfw": "\uff15"}
+SYM = {"sp": " ", "d": "\u0663", "R": "R", "x": "x", "tab": "\t", "nl": "\n", "bc": "/* c */", "lc": "// c\n", "dfw": "\uff15", "nbsp": "\u00a0", "ideosp": "\u3000"}
 
 
 def reftoken_cases(v, tier):
     toks = []
     for cfg in (("intended/RefTokenT.cfg" if tier == "thorough" else "intended/RefTokenQ.cfg"), "intended/RefTokenB.cfg",
-                "intended/RefTokenS.cfg", "intended/RefTokenN.cfg"):
+                "intended/RefTokenS.cfg", "intended/RefTokenN.cfg", "intended/RefTokenW.cfg"):
         toks += tlc_cases(v, cfg, module="MCRefToken.tla", tag="TOK")
     cases = []
     base = {"head": "bare", "target": "none", "kvs": [], "msg": "custom", "dir": "none", "trailing": "none",
